@@ -29,7 +29,7 @@ func init() { core.Register(c02{}) }
 
 func (c02) ID() string { return "C02" }
 func (c02) Rule() string {
-	return "plans: one signature (JWS/COSE, notary.x509 or signing-authority, optional verification-plugin / minimum-version / other critical extended attributes through notation-core-go's SignRequest) and one situation = trust anchor {found, not found, store load error, found in one listed store while another listed store cannot be loaded} x identity {wildcard, exact leaf subject, unrelated} x expiry {none, future, past on the sim clock} x certificate time {valid, leaf expired on the sim clock} x revocation script {OK, revoked, unknown, validator error} x plugin {none, manager nil, not installed, too old, invalid version, no capability, metadata error, trusted-identity, revocation, both} x verdicts {success, failure, missing} x plugin call error x critical attributes {none, processed, unprocessed}; verified at the same sim instant by three replicas (strict, permissive, audit) with the same legal overrides (24 enforcement maps). The first 200 plans of a batch are stratified over the factor levels. In a share of the runs the same verifier has already verified the signature once while another build of the plugin was installed (upgrade / downgrade / reinstall in between). non-trivial: at least one validation failed or a plugin was involved; distinct: hash of (situation, enforcement map, verdicts)"
+	return "plans: one signature (JWS/COSE, notary.x509 or signing-authority, optional verification-plugin / minimum-version / other critical extended attributes through notation-core-go's SignRequest) and one situation = trust anchor {found, not found, store load error, found in one listed store while another listed store cannot be loaded} x identity {wildcard, exact leaf subject, unrelated} x expiry {none, future, past on the sim clock} x certificate time {valid, leaf expired on the sim clock} x revocation script {OK, revoked, unknown, validator error} x plugin {none, manager nil, not installed, too old, invalid version, no capability, metadata error, trusted-identity, revocation, both} x verdicts {success, failure, missing} x plugin call error x critical attributes {none, processed, unprocessed}; verified at the same sim instant by three replicas (strict, permissive, audit) with the same legal overrides (24 enforcement maps; in a fifth of the plans the document spells them in another letter case, or SKIPs a type that cannot be skipped - refused, or meaning what it spells). The first 200 plans of a batch are stratified over the factor levels. In a share of the runs the same verifier has already verified the signature once while another build of the plugin was installed (upgrade / downgrade / reinstall in between). non-trivial: at least one validation failed or a plugin was involved; distinct: hash of (situation, enforcement map, verdicts)"
 }
 func (c02) Components() map[string]string {
 	return map[string]string{
@@ -88,6 +88,9 @@ func (c02) Gen(r *rand.Rand, tier string, idx int) *core.Plan {
 	w["callErr"] = healthy(2, 90)
 	w["crit"] = healthy(3, 50)
 	w["warm"] = int64(core.Pick(r, 0, 0, 0, 1, 2, 3))
+	if idx >= 200 && idx%5 == 4 {
+		w["respell"] = int64(1 + idx/5%4) // 1 Enforce / Log / Skip, 2 Expiry / Revocation ..., 3 ENFORCE ..., 4 "SKIP" on a type that cannot be skipped
+	}
 	w["rival"] = int64(r.IntN(2))
 	w["failKind"] = int64(r.IntN(3))
 	if w["crit"] != 0 && r.IntN(2) == 0 {
@@ -302,8 +305,8 @@ func (l c02) Exec(env *core.Env) *core.Result {
 		if plug != 0 && minVersionInvalid {
 			pluginProblem = true // the signed minimum version is no semantic version
 		}
-		situation := fmt.Sprintf("anchor=%d identity=%d expiry=%d certTime=%d revocation=%d plugin=%d verdicts=%d/%d callErr=%d crit=%d/%d scheme=%d fmt=%d legacy=%d bits=%d pver=%d prelude=%d entry=%d minver=%d warm=%d failKind=%d",
-			w["anchor"], w["identity"], w["expiry"], w["certTime"], w["revocation"], plug, w["vIdentity"], w["vRevocation"], w["callErr"], w["crit"], w["critKey"], w["scheme"], w["format"], w["legacy"], w["bits"], w["pver"], w["prelude"], w["entry"], w["minver"], w["warm"], w["failKind"])
+		situation := fmt.Sprintf("anchor=%d identity=%d expiry=%d certTime=%d revocation=%d plugin=%d verdicts=%d/%d callErr=%d crit=%d/%d scheme=%d fmt=%d legacy=%d bits=%d pver=%d prelude=%d entry=%d minver=%d warm=%d failKind=%d respell=%d",
+			w["anchor"], w["identity"], w["expiry"], w["certTime"], w["revocation"], plug, w["vIdentity"], w["vRevocation"], w["callErr"], w["crit"], w["critKey"], w["scheme"], w["format"], w["legacy"], w["bits"], w["pver"], w["prelude"], w["entry"], w["minver"], w["warm"], w["failKind"], w["respell"])
 		accepted := map[string]bool{}
 		for base := int64(0); base < 3; base++ {
 			levelName, override, enf := levelFromKnobs(base, w["bits"])
@@ -326,10 +329,43 @@ func (l c02) Exec(env *core.Env) *core.Result {
 					}
 				}
 			}
-			v, err := buildVerifier(vcfg{level: levelName, override: override, stores: listedStores, identities: identities, store: store, validator: val, legacy: w["legacy"] == 1, mgr: mgr, ctor: w["ctor"], siblings: siblings})
+			// the document may spell its overrides in another letter case (types, actions), or "SKIP" a type that cannot
+			// be skipped: such a document is refused - or, if a tree accepts it, it means what it spells (and the type
+			// that cannot be skipped keeps the action of the level). enf, the oracle's map, is canonical either way
+			docOverride := override
+			if rs := w["respell"]; rs != 0 {
+				docOverride = map[string]string{}
+				for k, v := range override {
+					switch rs {
+					case 1:
+						v = strings.ToUpper(v[:1]) + v[1:]
+					case 2:
+						k = strings.ToUpper(k[:1]) + k[1:]
+					case 3:
+						v = strings.ToUpper(v)
+					}
+					docOverride[k] = v
+				}
+				if rs == 4 {
+					typ := []string{"authenticity", "expiry", "authenticTimestamp"}[w["bits"]%3]
+					docOverride[typ] = []string{"SKIP", "Skip"}[w["bits"]/3%2]
+					enf[typ] = vBase[levelName][typ]
+				}
+				if len(docOverride) == 0 {
+					docOverride = nil
+				}
+			}
+			v, err := buildVerifier(vcfg{level: levelName, override: docOverride, stores: listedStores, identities: identities, store: store, validator: val, legacy: w["legacy"] == 1, mgr: mgr, ctor: w["ctor"], siblings: siblings})
 			if err != nil {
+				if w["respell"] != 0 && docOverride != nil {
+					res.Probe("document_with_respelled_override_refused")
+					continue
+				}
 				res.Violate("HARNESS/verifier", "", "%v", err)
 				return
+			}
+			if w["respell"] != 0 && docOverride != nil {
+				res.Probe("document_with_respelled_override_accepted")
 			}
 			if w["warm"] != 0 {
 				// ... and the long-lived verifier has just verified this very signature for one (or both) of those
